@@ -149,7 +149,10 @@ def run(chk):
                 d = describe(prog, e, t["discr"])
                 if d[0] == "bin" and d[1] in ("Lt", "Le", "Gt", "Ge") and desc_contains(d, lambda y: y[0] == "field" and y[2] == li):
                     c = d[3] if d[3][0] == "lit" else d[2]
-                    v = c[1]
+                    v = c[1] if c[0] == "lit" and isinstance(c[1], int) else None
+                    if v is None:
+                        th.append(("?", d[1], panics.short_desc(c)))
+                        continue
                     # normalise to "length < N"
                     if d[1] == "Le":
                         v += 1
@@ -197,7 +200,7 @@ def run(chk):
             gs = core.guards_dominating(prog, e, blk)
             # u16 form must be under (length >= 126 && length < 65536); u64 under length >= 65536
             lt = [(lab, d) for s, lab, d, info in gs if d[0] == "bin" and d[1] in ("Lt", "Le")]
-            under = sorted((d[3][1] if d[3][0] == "lit" else None, lab) for lab, d in lt)
+            under = sorted(((d[3][1] if d[3][0] == "lit" else -1), lab) for lab, d in lt)
             want = [(126, "false"), (65536, "true")] if ty == "u16" else [(126, "false"), (65536, "false")]
             chk.ob("R2.encoder", enc[0], f"{ty} form is used exactly on its length range", under == want, f"{ty} bytes are emitted under {under}", where=e.where(blk))
     # ---- R4 Message::to_frame
